@@ -57,6 +57,11 @@ class C02(Monitor):
             nr = w.pools[p].num_running
             if nr != w.live[p]:
                 self.v("num_running != workers in flight at quiet idle", p, nr, w.live[p])
+        absorbing = is_absorbing(w)
+        if not absorbing:
+            for k in w.cancel_targets:
+                if k in w.started and k not in w.exited:
+                    self.v("a task whose cancellation was accepted is still running at the next quiet idle", k)
 
     def blocked_ok(self, i):
         w = self.w
@@ -98,6 +103,8 @@ class C02(Monitor):
                 continue
             for t in ids:
                 n = w.cb_done[("ecb", (req.p, t))]
+                if w.cancelled_ops:
+                    n += w.cb_interrupted[("ecb", (req.p, t))]  # interrupted by the harness cancelling a flush() caller
                 if n != 1:
                     self.v("task did not get exactly one end callback", (req.p, t), n)
 
@@ -187,7 +194,8 @@ class C03(Monitor):
             if own != "ended":
                 self.v("end callback: own id does not count as ended", key, own)
             by_cancel = w.exited.get(key) == "cancelled" or never_started
-            if by_cancel and self._cb_kind("ccb", key) != "none" and w.cb_done[("ccb", key)] != 1:
+            ccb_done = w.cb_done[("ccb", key)] + (w.cb_interrupted[("ccb", key)] if w.cancelled_ops else 0)
+            if by_cancel and self._cb_kind("ccb", key) != "none" and ccb_done != 1:
                 self.v("end callback before/without completed cancel callback", key, w.cb_done[("ccb", key)])
         else:
             if own != "cancelled":
@@ -207,15 +215,25 @@ class C03(Monitor):
                 by_cancel = w.exited.get(k) == "cancelled" or k not in w.started
                 if self._cb_kind("ecb", k) != "none":
                     n = w.cb_done[("ecb", k)]
+                    if w.cb_interrupted[("ecb", k)] and w.cancelled_ops:
+                        n += w.cb_interrupted[("ecb", k)]  # interrupted by the harness cancelling a flush()/... caller
                     if n != 1 or w.cb_begun[("ecb", k)] != 1:
-                        self.v("end callback not run exactly once to completion", k, n)
+                        self.v("end callback not run exactly once to completion", k, n, w.cb_interrupted[("ecb", k)])
                 if self._cb_kind("ccb", k) != "none":
                     n = w.cb_done[("ccb", k)]
+                    if w.cb_interrupted[("ccb", k)] and w.cancelled_ops:
+                        n += w.cb_interrupted[("ccb", k)]
                     want = 1 if by_cancel else 0
                     if n != want or w.cb_begun[("ccb", k)] != want:
-                        self.v("cancel callback count wrong", k, n, want, w.exited.get(k))
+                        self.v("cancel callback count wrong", k, n, want, w.exited.get(k), w.cb_interrupted[("ccb", k)])
 
 
+
+
+def is_absorbing(w):
+    """some worker of the scenario swallows a CancelledError and carries on"""
+    return (w.scen.get("worker") == "absorb" or any(sp.get("worker") == "absorb" for sp in w.scen["pools"])
+            or any((r.opts or {}).get("worker") == "absorb" for r in w.reqs.values()))
 
 
 def started_of(w, tag):
@@ -415,7 +433,7 @@ class C07(Monitor):
         self.before = None
 
     def __canon__(self):
-        return sorted((t, v[0], v[1], sorted(v[2])) for t, v in self.cut.items())
+        return sorted((t, v[0], v[1], sorted(v[2].items())) for t, v in self.cut.items())
 
     def public_obs(self, p):
         w = self.w
@@ -464,7 +482,7 @@ class C07(Monitor):
                 # the op was issued from user code: the issuing worker itself is running, not
                 # suspended; it may finish without another suspension point
                 suspended = {k for k in suspended if f"{w.pools[k[0]]}_Task-{k[1]}" != cur.get_name()}
-            self.cut[t] = (len(started_of(w, t)), w.pulled[t], suspended)
+            self.cut[t] = (len(started_of(w, t)), w.pulled[t], {k: w.cancel_seen[k] for k in suspended})
             try:
                 ids = w.pools[p].get_group_ids(self.pre_groups[t])
                 self.v("cancelled group still reported by get_group_ids", t, sorted(ids))
@@ -485,12 +503,13 @@ class C07(Monitor):
     def quiet_idle(self):
         w = self.w
         for t, (n, pulled, live) in self.cut.items():
-            for k in live:
-                if k not in w.exited:
+            absorbing = is_absorbing(w)
+            for k, seen_before in live.items():
+                if k not in w.exited and not absorbing:
                     self.v("task of a cancelled group still running at the next quiet idle", k)
-                elif w.cancel_seen[k] < 1:
-                    self.v("suspended task of a cancelled group saw no CancelledError", k, w.exited[k])
-            if w.scen.get("worker", "plain") == "plain":
+                elif w.cancel_seen[k] <= seen_before and not (k in w.exited and w.exited[k] != "cancelled" and absorbing and w.cancel_seen[k] >= 2):
+                    self.v("suspended task of a cancelled group saw no (further) CancelledError", k, w.exited.get(k), w.cancel_seen[k], seen_before)
+            if not is_absorbing(w):
                 for k in started_of(w, t):
                     if k not in w.exited:
                         self.v("task of a cancelled group still running at quiet idle", k)
@@ -508,7 +527,7 @@ class C08(Monitor):
         kinds = {w.scen.get("ecb", "none"), w.scen.get("ccb", "none")}
         for r in w.reqs.values():
             kinds |= {r.opts.get("ecb", "none"), r.opts.get("ccb", "none")} if r.opts else set()
-        return bool(kinds & {"raise", "araise"})
+        return bool(kinds & {"raise", "araise", "praise", "apraise"})
 
     def driver_done(self, i, op, out):
         w = self.w
@@ -791,7 +810,7 @@ class C09(Monitor):
             return
         if "locked" in sub:
             pool.lock()
-        causes = set(sub) - {"named"}
+        causes = {("dupname" if c.startswith("dup:") else c) for c in sub} - {"named"}
         if pool.is_locked:
             causes.add("locked")
         if closed:
@@ -1052,7 +1071,7 @@ class C12(Monitor):
         for r in w.reqs.values():
             if r.opts:
                 kinds |= {r.opts.get("ecb", "none"), r.opts.get("ccb", "none")}
-        return bool(kinds & {"raise", "araise"})
+        return bool(kinds & {"raise", "araise", "praise", "apraise"})
 
 
 class C13(Monitor):
@@ -1069,7 +1088,7 @@ class C13(Monitor):
 
     def cb_pending(self, k):
         w = self.w
-        return any(w.cb_begun[(wh, k)] > w.cb_done[(wh, k)] for wh in ("ecb", "ccb"))
+        return any(w.cb_begun[(wh, k)] > w.cb_done[(wh, k)] + w.cb_interrupted[(wh, k)] for wh in ("ecb", "ccb"))
 
     def finished(self, k):
         """Harness view: worker exited and every callback configured for it has completed."""
@@ -1159,6 +1178,8 @@ class C14(Monitor):
                 continue
             if k not in w.started and f"{w.pools[p]}_Task-{t}" not in pending:
                 continue  # cancelled before its first step and already through
+            if k not in w.started and (w.cb_begun[("ccb", k)] or w.cb_begun[("ecb", k)]):
+                continue  # cancelled before its first step; its wrapper is already in the callbacks
             out.append(t)
         return sorted(out, reverse=True)
 
@@ -1192,7 +1213,7 @@ class C14(Monitor):
 
     def quiet_idle(self):
         w = self.w
-        absorbing = w.scen.get("worker") == "absorb" or any((r.opts or {}).get("worker") == "absorb" for r in w.reqs.values())
+        absorbing = is_absorbing(w)
         for k in self.expected:
             if k in w.started and k not in w.exited and not absorbing:
                 self.v("stopped task still running at quiet idle", k)
